@@ -97,27 +97,44 @@ func runRealCluster(t fataler, dir string, p realParams) (ops int64, snaps bool)
 	opts := []raft.Option{raft.WithElectionTimeout(200 * time.Millisecond), raft.WithHeartbeatInterval(30 * time.Millisecond), raft.WithLogLevel(logging.Fatal)}
 	nodes := make([]*raft.Raft, n+1)
 	fsms := make([]*raceFSM, n+1)
+	// (registered before any node exists: a case that cannot be set up - e.g. a port taken by another
+	// process between freeAddr and Start - must not leave running nodes behind when its directory goes)
+	defer func() {
+		for _, r := range nodes {
+			if r != nil {
+				r.Stop()
+			}
+		}
+		// a node that has been stopped stays stopped (its directory is about to be removed)
+		time.Sleep(30 * time.Millisecond)
+		for i, r := range nodes {
+			if r != nil {
+				if st := r.Status(); st.State != raft.Shutdown {
+					fmt.Printf("NODE-ALIVE-AFTER-STOP node=%s status=%+v params=%+v\n", ids[i], st, p)
+					stats.For("C20").Note(fmt.Sprintf("node %s reports state %v after Stop() returned", ids[i], st.State))
+				}
+			}
+		}
+	}()
 	for i := 0; i <= n; i++ {
 		fsms[i] = &raceFSM{thresh: p.Thresh, pad: p.SnapPad}
 		r, err := raft.NewRaft(ids[i], addrs[i], fsms[i], fmt.Sprintf("%s/%s", dir, ids[i]), opts...)
 		if err != nil {
-			t.Fatalf("harness error: NewRaft: %v", err)
+			stats.For("C20").Note("real-transport case could not be set up (NewRaft): " + err.Error())
+			return 0, false
 		}
 		nodes[i] = r
 		if i < n {
 			if err := r.Bootstrap(members); err != nil {
-				t.Fatalf("harness error: Bootstrap: %v", err)
+				stats.For("C20").Note("real-transport case could not be set up (Bootstrap): " + err.Error())
+				return 0, false
 			}
 		}
 		if err := r.Start(); err != nil {
-			t.Fatalf("harness error: Start: %v", err)
+			stats.For("C20").Note("real-transport case could not be set up (Start): " + err.Error())
+			return 0, false
 		}
 	}
-	defer func() {
-		for _, r := range nodes {
-			r.Stop()
-		}
-	}()
 	leader := func() *raft.Raft {
 		for _, r := range nodes[:n] {
 			if r.Status().State == raft.Leader {
